@@ -5,8 +5,11 @@ LEVEL_TEXT = ("Coq theorems over the disk-level model of the file store, in whic
               "operation is a function of the disk alone, so a reopen is the identity on everything observable "
               "(reopen_transparent, over all histories with reopens at any positions); on every reachable disk — after any "
               "history, restarts and even crashes — every operation runs without a failing step and has exactly the effect of "
-              "the ordered-mailbox specification, including cap eviction (ops_continue); a removed or purged message never "
-              "reappears unless a later delivery is given its id (removed_stay_gone). The model is tied to the code by "
+              "the ordered-mailbox specification, including cap eviction (ops_continue); *partial*: a removed or purged message never "
+              "reappears PROVIDED no later delivery is issued its id (removed_stay_gone_partial; always so within one process "
+              "incarnation: removed_stay_gone_one_incarnation) — after a restart within the same second the id of a message that is "
+              "gone IS issued again (removed_stay_gone_refuted, open finding K-C10-id-reissued-after-restart, observed on the real "
+              "store on every run). The model is tied to the code by "
               "histories with in-process reopens (file.New on the same path) and REAL process restarts (the driver re-executes "
               "itself per segment, which resets the global id counter), compared with the model and with an ordered-map oracle.")
 LEVEL_NOTE = ("The theorems are about Model/FileDisk.v (hand-written model of pkg/storage/file); that the real Store keeps no mailbox "
@@ -20,7 +23,9 @@ RULE = ("hist: 5 fixed histories (the deliver / restart / deliver program of fin
         "random positions, 40 (thorough 1000) histories cut into 2-4 segments each run by its own process (real restart; the first "
         "delivery after a restart usually targets the mailbox the previous process delivered to first, so that the restarted id "
         "counter collides). distinct = distinct input line; non-trivial = the history holds a reopen or restart and at least one "
-        "successful delivery.")
+        "successful delivery. reissue (corpus, every run): deliver / remove / REAL restart / deliver with both processes inside one "
+        "wall-clock second (retried if the second rolled over): the witness of the open finding. After EVERY operation a freshly "
+        "constructed store's full state is compared with the live store object's (field live). Histories may change the cap at a reopen (C.<n>).")
 TRUSTED = ["encoding/gob round trip: dec (enc i) = Some i (section hypothesis)",
            "the real Store object holds no mailbox state between calls (sampled by the correspondence run: state before = state after every reopen)"]
 ASSUMPTIONS = ["no I/O errors", "one operation at a time per mailbox (C09 covers interleavings)",
